@@ -3,7 +3,10 @@ Proof: Props/C19.lean + Obligations/Named.lean. Tie: extraction (separator, JSON
 characters and loop shape, cache key, LOGJ_ helper shape) + harness H3 (`h3_named.cpp`: the real scanner functions on
 generated templates; the real backend + recording sink + real JsonFileSink end to end) vs the Lean driver `named`.
 Independent oracles: grammar structure of the generated template, fmtquill::format with positional arguments,
-per-argument formatting (in the harness), and Python's `json` module on every JSON line (here)."""
+per-argument formatting (in the harness), and Python's `json` module on every JSON line (here).
+Third stream `faults` (C19 "one JSON object per line" + C10 "a throwing sink disturbs nothing else"): a JsonFileSink subclass
+whose generate_json_message override / before_write hook throws on chosen statements; the file must hold exactly the lines
+of the statements that did not fault (Props/C19Json.lean: Named.jsonWrite, the sink's line buffer across statements)."""
 import json
 import os
 import shutil
@@ -16,7 +19,7 @@ PROPS = ["C19"]
 MANIFEST = {
     "C19": dict(
         technique="Lean 4 proof: loop-level transcription of both brace scanners + induction over the template grammar; split∘join on an unbordered separator; JSON line structure; cache transparency by induction over lookup histories; extraction of separator / JSON literals / scanner characters; differential correspondence on the real scanners, the real backend and the real JsonFileSink; Python json oracle",
-        text="Machine-checked proof (Lean 4) that for every template of the grammar (text | {{ | }} | {[ident][:spec]})* — in the class where no placeholder is directly followed by an escaped }} — the string handed to fmt is the template with the names erased and the specs kept and the key list is the placeholder names in order, one per placeholder; that the compile-time flag is true iff a named placeholder occurs (unconditionally on the property's own grammar, and for mixed positional/named templates in the class where a positional placeholder is followed by a literal character); that split(join(values)) = values for every value list not containing the separator (the separator being non-empty and unbordered, re-proved for the extracted QUILL_MAGIC_SEPARATOR), so pair i holds argument i rendered by its own spec; that the JSON line is `{` + the seven fixed members in fixed order + the pairs in order + `}\\n`, contains a newline before the final one iff a run-time value does (the template's newlines are rewritten to spaces); that LOGJ_ generated templates with identifier arguments are in both good classes; and that the template cache returns what fresh processing returns for every history of lookups. The excluded classes are finding F11, proved as counter-witnesses in the model and reproduced on the real code. Tied to the code by extraction + obligations, by running the real scanner functions on exhaustive small scopes and generated templates against the model (every flag / positional string / key list compared), and by running ~45 compile-time call sites through the real backend, a recording sink and the real JsonFileSink for every order of first sightings of sampled template triples.",
+        text="Machine-checked proof (Lean 4) that for every template of the grammar (text | {{ | }} | {[ident][:spec]})* — in the class where no placeholder is directly followed by an escaped }} — the string handed to fmt is the template with the names erased and the specs kept and the key list is the placeholder names in order, one per placeholder; that the compile-time flag is true iff a named placeholder occurs (unconditionally on the property's own grammar, and for mixed positional/named templates in the class where a positional placeholder is followed by a literal character); that split(join(values)) = values for every value list not containing the separator (the separator being non-empty and unbordered, re-proved for the extracted QUILL_MAGIC_SEPARATOR), so pair i holds argument i rendered by its own spec; that the JSON line is `{` + the seven fixed members in fixed order + the pairs in order + `}\\n`, contains a newline before the final one iff a run-time value does (the template's newlines are rewritten to spaces); that LOGJ_ generated templates with identifier arguments are in both good classes; and that the template cache returns what fresh processing returns for every history of lookups. The excluded classes are finding F11, proved as counter-witnesses in the model and reproduced on the real code. Tied to the code by extraction + obligations, by running the real scanner functions on exhaustive small scopes and generated templates against the model (every flag / positional string / key list compared), and by running ~45 compile-time call sites through the real backend, a recording sink and the real JsonFileSink for every order of first sightings of sampled template triples. One object per line also when the sink throws: JsonSink::write_log is modelled with its line buffer carried across statements (clear; generate_json_message; append; base write) and proved, for every sequence of statements and every schedule of faults (the generate_json_message customisation point throwing after any number of bytes of the record, the before_write hook / base write throwing), to leave in the file exactly the lines of the statements that did not fault, given that the buffer is emptied before generate_json_message (extracted; the variant that empties it after the write is refuted by witnesses); tied by a third stream that drives a JsonFileSink subclass with such an override and hook through the real backend (sequences of 4-8 statements with 0-3 faults) with the model recomputing the bytes written per statement and Python json parsing the resulting file.",
         note="fmt itself is not modelled beyond its top level ({{, }}, automatic indexing); 'value i rendered by its own spec' is checked on the real code against fmtquill::format per argument. Templates with nested replacement fields inside a spec, numbered fields, or names not starting with a letter are outside the grammar. uint32_t position overflow of _contains_named_args (templates ≥ 4 GiB) not modelled.",
         ref="§5 C19, §7 F11"),
 }
@@ -30,13 +33,16 @@ THEOREMS = {
             "Named.C19_statement_unnamed_partial", "Named.fmtSubst_render",
             "Named.C19_json_members", "Named.C19_json_single_line", "Named.C19_template_newlines", "Named.C19_json_parses",
             "Named.C19_loops_run_to_completion", "Named.C19_cache_transparent", "Named.C19_lookup_transparent", "Named.C19_logj", "Named.C19_logj_colon_counter",
+            "Named.C19_json_faults_leave_nothing", "Named.C19_json_faults_leave_nothing_from", "Named.C19_json_write_ignores_leftover",
+            "Named.jsonWrite_clearFirst", "Named.C19_json_clear_after_leaks_partial_record", "Named.C19_json_clear_after_resends_failed_line",
+            "Named.C19_json_no_clear_accumulates", "Obligations.named_json_clear_before_generate", "Obligations.C19_json_faults_extracted",
             "Obligations.named_extraction_complete", "Obligations.named_separator_ok", "Obligations.named_json_layout",
             "Obligations.named_json_literals", "Obligations.named_detect_chars", "Obligations.named_process_chars",
             "Obligations.named_cache_key", "Obligations.named_logj_shape", "Obligations.C19_split_join_extracted",
             "Obligations.C19_pairs_extracted", "Obligations.C19_json_extracted",
             "Obligations.C19_json_single_line_extracted", "Obligations.C19_json_parses_extracted"],
 }
-MODULES = {"C19": ["QuillModel.Props.C19"]}
+MODULES = {"C19": ["QuillModel.Props.C19", "QuillModel.Props.C19Json"]}
 OBLIG = ["QuillModel.Obligations.Named"]
 
 FIXED_KEYS = ["timestamp", "file_name", "line", "thread_id", "logger", "log_level", "message"]
@@ -203,6 +209,50 @@ def json_oracle(op_words, obs):
     return fails, st
 
 
+def jsonfault_oracle(stmts):
+    """one case of the `faults` stream: stmts = [(op words of the jlog line, observation dict)]. The bytes that reached the file
+    must be exactly one line per statement that did not fault, in order, each one JSON object (Python json) holding the seven
+    fixed members and the statement's own pairs; nothing of a faulted statement (its unique marker) anywhere. Returns failures."""
+    fails = []
+    data = b"".join(unhex(o.get("wrote", "-")) for _, o in stmts)
+    lines = data.split(b"\n")
+    if lines and lines[-1] == b"":
+        lines.pop()
+    else:
+        fails.append("file does not end with a newline")
+    want = []
+    for w, o in stmts:
+        marker = unhex(w[2].split(",")[0])
+        if w[3] != "ok":
+            if marker and marker in data:
+                fails.append("marker %r of a statement whose write threw (%s) is in the file" % (marker.decode("latin-1"), w[3]))
+            continue
+        pairs = dec_pairs(o_pairs(w))
+        hdr = [unhex(h) for h in o_hdr(w).split(",")]
+        msg = unhex(w[4]).replace(b"\n", b" ")
+        want.append((FIXED_KEYS + [k.decode("utf-8") for k, _ in pairs],
+                     [h.decode("utf-8") for h in hdr] + [msg.decode("utf-8")] + [v.decode("utf-8") for _, v in pairs]))
+    if len(lines) != len(want):
+        fails.append("%d lines in the file, %d statements did not fault" % (len(lines), len(want)))
+    for i, ln in enumerate(lines):
+        try:
+            obj = json.loads(ln.decode("utf-8"), object_pairs_hook=list)
+        except Exception as ex:  # noqa: BLE001
+            fails.append("line %d is not one JSON object: %r: %r" % (i + 1, ex, ln[:160]))
+            continue
+        if i < len(want) and ([k for k, _ in obj], [v for _, v in obj]) != want[i]:
+            fails.append("line %d holds %r, expected keys %r values %r" % (i + 1, obj, want[i][0], want[i][1]))
+    return fails, len(lines)
+
+
+def o_pairs(w):
+    return next((x[6:] for x in w if x.startswith("pairs=")), "-")
+
+
+def o_hdr(w):
+    return next((x[4:] for x in w if x.startswith("hdr=")), "")
+
+
 # ------------------------------------------------------------------------------------------------------------------
 class Run:
     """accumulates harness + driver output of one stream"""
@@ -216,7 +266,8 @@ class Run:
         self.stats = {}
         self.cov = {"driver_lines": 0, "scan_lines": 0, "e2e_statements": 0, "json_parsed": 0, "json_needs_escaping": 0,
                     "json_multi_line": 0, "first_sighting_orders": 0, "cache_dumps": 0, "theorem_instances_checked": 0,
-                    "cls_crosschecked": 0}
+                    "cls_crosschecked": 0, "jsonfault_cases": 0, "jsonfault_statements": 0, "jsonfault_faults": 0,
+                    "jsonfault_lines_parsed": 0, "jsonfault_cases_with_statement_after_fault": 0}
         self.templates = set()
         self.nontrivial = set()
         self.e2e_cases = set()
@@ -225,6 +276,7 @@ class Run:
         self.traces = 0
         self.outside = {"procOK": set(), "detectOK": set()}     # scan templates outside a class (model's CLS lines)
         self.wrong = {"procOK": set(), "detectOK": set()}       # scan templates on which the reference oracle fired
+        self.jf_nontrivial = set()
 
     def note_known(self, cls, sample):
         k = self.known.setdefault(cls, [0, sample])
@@ -250,6 +302,7 @@ class Run:
 
     def process(self, label, hout, dout):
         lines = hout.split("\n")
+        jf_case = []
         seg_start = 0         # index of the last cache-clear
         prefix_ops = []       # e2e-init / san lines seen so far
         dlines = dout.split("\n")
@@ -313,6 +366,30 @@ class Run:
                                                 "JSON line of the real JsonFileSink violates the property (template %s): %s" % (w[3], f)))
             elif ln.startswith("cache-dump"):
                 self.cov["cache_dumps"] += 1
+            elif ln.startswith("jf-begin"):
+                jf_case = []
+            elif ln.startswith("jlog "):
+                op, _, ob = ln.partition(" => ")
+                jf_case.append((op.split(), kv(ob.split())))
+                self.cov["jsonfault_statements"] += 1
+                self.cov["jsonfault_faults"] += int(op.split()[3] != "ok")
+            elif ln.startswith("jf-end"):
+                self.cov["jsonfault_cases"] += 1
+                kinds = [w[3] != "ok" for w, _ in jf_case]
+                if any(a and not b for a, b in zip(kinds, kinds[1:])):
+                    self.cov["jsonfault_cases_with_statement_after_fault"] += 1
+                    self.jf_nontrivial.add(tuple((w[1], w[3]) for w, _ in jf_case))
+                if all("wrote" in o for _, o in jf_case):
+                    fails, nlines = jsonfault_oracle(jf_case)
+                    self.cov["jsonfault_lines_parsed"] += nlines
+                    for f in fails[:1]:
+                        self.violations.append(("oracle_jsonfault", self.replay_for(lines, i),
+                                                "property fails on the real code: a throwing JSON sink left something behind / the file is not one object per delivered statement: " + f))
+                if len(self.samples) < 6 and any(kinds) and len(self.samples) >= 4:
+                    self.samples.append({"source": label, "case": [" ".join(w[:1] + w[3:4]) + " => " + " ".join("%s=%s" % (k, v[:60]) for k, v in o.items()) for w, o in jf_case]})
+            elif ln.startswith("ORACLE jf-"):
+                self.violations.append(("oracle_jsonfault", self.replay_for(lines, i - 1),
+                                        "property fails on the real code: a throwing JSON sink left something behind: " + ln[:400]))
             elif ln.startswith("ORACLE "):
                 w = ln.split()
                 d = kv(w[2:])
@@ -337,6 +414,20 @@ class Run:
             return Run.replay_for(lines, i - 1)
         if ln.startswith("scan "):
             return ln.split(" => ")[0] + "\n"
+        if ln.startswith(("jlog ", "jf-")):
+            # fault stream: the statements of this case so far (call site, argument vector, fault)
+            start = i
+            while start > 0 and not lines[start].startswith("jf-begin"):
+                start -= 1
+            ops = ["e2e-init", "san 1"]
+            for k in range(start, i + 1):
+                l2 = lines[k]
+                if l2.startswith("jlog "):
+                    ops.append(" ".join(l2.split()[:4]))
+                elif l2.startswith("jf-begin"):
+                    ops.append(l2.strip())
+            ops.append("jf-end")
+            return "\n".join(ops) + "\n"
         # e2e: e2e-init, the last san, everything since the last cache-clear
         start = i
         while start > 0 and not lines[start].startswith("cache-clear"):
@@ -421,6 +512,12 @@ def run(prop, tier):
                 ck.violation("abort_e2e_seed%d" % sd, "h3_named e2e %d %d\n\n%s" % (sd, trials, out[-4000:]),
                              "harness aborted (rc=%d) while driving the real backend: sanitizer report or crash" % rc)
             R.process("e2e seed=%d" % sd, out, dout)
+            ncases = 150 if tier == "quick" else 2500
+            rc, out, dout = harness_and_driver(hbin, ["faults", str(sd), str(ncases), scratch])
+            if rc not in (0, 3):
+                ck.violation("abort_faults_seed%d" % sd, "h3_named faults %d %d\n\n%s" % (sd, ncases, out[-4000:]),
+                             "harness aborted (rc=%d) while driving the throwing JSON sink: sanitizer report or crash" % rc)
+            R.process("faults seed=%d" % sd, out, dout)
         # proof side broken and nothing found yet: look harder (deeper scopes, more seeds) for a failing input
         if ps["broken"] and not R.violations and tier == "quick":
             for sd in (ck.seed + 7000, ck.seed + 8000):
@@ -435,6 +532,7 @@ def run(prop, tier):
 
     # ---- verdicts --------------------------------------------------------------------------------------------
     seen = set()
+    R.violations.sort(key=lambda v: len(v[1]) if v[0] == "oracle_jsonfault" else 0)   # shortest failing fault case first (stable)
     for tag, replay, text in R.violations:
         if tag in seen:
             continue
@@ -457,17 +555,19 @@ def run(prop, tier):
     ck.cov.update({
         "evaluations": R.cov["driver_lines"],
         "traces_validated_against_impl": R.traces,
-        "distinct_nontrivial": R.nontrivial_count() + len(R.e2e_cases),
+        "distinct_nontrivial": R.nontrivial_count() + len(R.e2e_cases) + len(R.jf_nontrivial),
         "rule": "scan stream: distinct template strings that contain a placeholder and also an escaped brace pair or a spec "
                 "(%d of %d distinct templates); e2e stream: distinct (call site, argument vector) statements pushed through the real "
-                "backend and JsonFileSink (%d)" % (R.nontrivial_count(), len(R.templates), len(R.e2e_cases)),
+                "backend and JsonFileSink (%d); faults stream: distinct (call sites, fault schedule) sequences of 4-8 statements through a throwing "
+                "JsonFileSink subclass in which a fault is followed by a delivered statement (%d)" % (
+                    R.nontrivial_count(), len(R.templates), len(R.e2e_cases), len(R.jf_nontrivial)),
         "samples": R.samples,
         "corpus_cases": ncorpus,
         "harness_stats": R.harness_stats,
         "counters": R.cov,
         "extracted": {k: ck.extracted.get("named", {}).get(k) for k in ("separator", "jsonLayout", "detectEqChars", "detectAlphaRanges",
                                                                      "detectTrailingInc", "processFindChars", "cacheKeyIsOriginalTemplate",
-                                                                     "logjShapeOK")},
+                                                                     "logjShapeOK", "jsonClearBefore", "jsonClearAfter", "jsonWriteOrderOK")},
         "mismatching_lines": len(R.mismatches),
         "oracle_violations": len(R.violations),
         "known_class_hits": {cl: v[0] for cl, v in R.known.items()},
